@@ -57,10 +57,13 @@ def run(ctx):
                "x*1 with the constant produced inside the match: Opt/RuleBridge.v), for the others it is what C05 states per family in its own "
                "element semantics and what the per-pass before/after oracle on RewritePass observes; rules whose side condition is a fact about "
                "values produced outside the match (initializer equal to 1, declared element type or shape) do not fit this interface (they need "
-               "an environment invariant); (5) InlinePass preserves evaluation (analogue for the builder's inliner: C18_inline_eq_call_node): "
-               "per-pass before/after oracle on InlinePass on models with functions")
-    ctx.assume("RemoveUnusedFunctions / RemoveUnusedOpsets do not change the meaning of (graph, initializer table): a call is the kernel sem dom op, "
-               "neither table is read by the evaluator; OutputFixPass is modelled for duplicated outputs of the main graph only (a graph input "
+               "an environment invariant); (5) InlinePass: NO hypothesis left in C03_optimize_ir_with_functions_sound (Props/C03_inline.v): Gallina model "
+               "Opt/InlineFn.v, the names chosen by the real pass are the model's oracle and are checked by its side conditions; the model "
+               "refuses functions returning a formal or one value twice (the real pass then renames a value of the caller: C04 known finding) "
+               "and ignores overloads; a call means the evaluation of the callee's body (fsem), call chains of any bounded depth")
+    ctx.assume("RemoveUnusedFunctions is proved meaning-preserving over the semantics in which a call evaluates the callee's body "
+               "(C03_remove_unused_functions_sound); the evaluator does not read the opset table; after inlining no call is left, so both are "
+               "the identity on the meaning; with inline=False the stages are proved for an arbitrary kernel, which covers calls as kernels; OutputFixPass is modelled for duplicated outputs of the main graph only (a graph input "
                "listed as output is renamed by the real pass: not modelled); NameFixPass = C07's namefix under namefix_okb; float outputs are "
                "compared up to round-off (tight for integer-valued data flows), NaN / infinities must coincide, ints / bools / strings bit-equal")
     ctx.trust("translator harness/c03_pipeline.py (Python ast, fail-closed) -> coq/Gen/OptPipeline.v; the shape predicate pipeline_ok "
@@ -73,7 +76,8 @@ def run(ctx):
 
     # (ii) decision-trace correspondence of fold_constants
     n_trace = 60 if quick else 400
-    tstats = K.trace_stream(ctx, rng, K.dag_stream(rng, n_trace, overridable_every=0), "C03")
+    import itertools as _it
+    tstats = K.trace_stream(ctx, rng, _it.chain(K.fold_family_stream(rng), K.dag_stream(rng, n_trace, overridable_every=0)), "C03")
     agree = tstats["agree"] + tstats["agree(outside-theorem-side-conditions)"]
     ctx.obligation("correspondence fold_constants: per-node decisions and resulting graph of the real pass = Opt/Fold.v on every compared model",
                    tstats["disagree"] == 0 and agree > 0, f"{dict(tstats)}")
@@ -87,6 +91,14 @@ def run(ctx):
     ctx.obligation("translator: how every option of optimize / optimize_ir / fold_constants reaches FoldConstantsPass / PassManager (call sites, keywords, defaults)",
                    winfo is not None, str(winfo))
     pc = P.PassChecker(ctx, "C03")
+    from harness import c03_inline
+    itie = c03_inline.InlineTie(ctx, "C03")
+    for label, hm, hfeeds in c03_inline.function_hosts(rng, quick):
+        itie.add_model(label, hm, hfeeds)
+        try:
+            itie.add_pass_records(label, P.observe(hm, (2, True, False, True, 8192, 512 * 512)))      # inline=False: the tables survive
+        except Exception:
+            pass
     n_pass_dag = 25 if quick else 150
 
     # (iii) direct oracle
@@ -110,6 +122,12 @@ def run(ctx):
             feats[f] += 1
         ctx.case(("dag", tuple(f for f in c.features if not f.startswith("value_info"))[:12]))
         K.differential(ctx, c, base, K.run_plan(rng, ctx.tier, c), stats)
+        if c.model.functions:
+            itie.add_model(f"{c.kind}:{c.ident}", c.model, c.feeds)
+            try:
+                itie.add_pass_records(f"{c.kind}:{c.ident}", P.observe(c.model, (1, True, False, True, 8192, 512 * 512)))
+            except Exception:
+                pass
         if not c.kind.startswith("dag") or stats["per-pass-dag-models"] < n_pass_dag:
             # every individual pass of the real pipeline: before/after oracle + model correspondence (DCE, CSE)
             stats["per-pass-dag-models"] += int(c.kind.startswith("dag"))
@@ -129,11 +147,13 @@ def run(ctx):
             plan += [("optimize", K.R.option_tuples(rng, 2)[1], True), ("rewrite", None, False)]
         K.differential(ctx, c, base, plan, stats)
     pstats = pc.finish() or pc.stats
+    istats = itie.finish()
     zero_sign_witness(ctx, stats)
     if stats["valid-dag-models"] < n_dag // 2:
         ctx.tie_broken("harness", "generator-degenerate", f"only {stats['valid-dag-models']} valid DAG models of {n_dag}: {dict(discards)}")
     ctx.obligation("direct oracle: every entry point / option tuple leaves the outputs of every valid generated model unchanged "
                    "(known findings excepted)", stats["violations"] == 0 or not ctx.violations, f"{dict(stats)}")
+    ctx.cover(inline_tie=dict(istats))
     ctx.cover(trace=dict(tstats), oracle=dict(stats), per_pass=dict(pstats), pipeline=pinfo, discarded=dict(discards),
               feature_histogram=dict(sorted(feats.items())),
               translator={"registry": len(info["registry"]) if info else None, "guards_graph_inputs": info.get("guard") if info else None,
